@@ -11,10 +11,15 @@ A case is the JSON-able tuple ``(tree, rules, opts, perm)`` or, in the parts
 added later, ``(tree, rules, opts, perm, tree3)``:
 
 ``tree``   entries below the rule directory ``r``, parents first; directories
-           carry a trailing slash: ``('a.x', 'd/', 'd/b.x')``
+           carry a trailing slash: ``('a.x', 'd/', 'd/b.x')``.  Two names are
+           neither a directory nor a regular file (parts "specials*"):
+           ``p`` is always a FIFO (os.mkfifo), ``l`` always a dangling
+           symbolic link (os.symlink to a missing target): ``('d/', 'd/p')``
 ``rules``  1-2 rules ``(directory, extension filter, extras?)`` with directory
            in ``r`` | ``r/d`` (exists iff the tree has ``d/``) | ``m`` (never
-           exists) | ``f`` (a plain file next to ``r``)
+           exists) | ``f`` (a plain file next to ``r``) | ``q`` (a FIFO next
+           to ``r``, created only for the cases that name it: part
+           "rule-fifo")
 ``opts``   ``(nest, trim, nest_how, trim_how[, root_how])``; how = ``ctor``
            (value given to the constructor, nothing per call) or ``call``
            (constructor gets the *opposite* value, the call overrides it);
@@ -52,6 +57,13 @@ FILES = ('a.x', 'a.y', 'b.x', 'c')
 PARENT_DIRS = ('d', 'd.x')          # directories that may have children
 LEAF_DIRS = ('e',)                  # always empty
 MAX_DEPTH = 3
+# entries that exist (os.path.lexists) but are neither a directory nor a
+# regular file; the name decides the kind
+FIFO_NAME = 'p'
+LINK_NAME = 'l'
+SPECIAL_NAMES = (LINK_NAME, FIFO_NAME)
+LINK_TARGET = 'no-such-target'      # relative: resolved next to the link
+FIFO_RULE = 'q'                     # rule path that is a FIFO next to r
 EXT_FILTERS = ((), ('.x',), ('.x', '.y'))
 HOWS = ('ctor', 'call')
 ROOT_HOWS = ('plain', 'slash', 'call', 'call-slash')
@@ -87,6 +99,23 @@ RULE = (
     'holds another existing directory with foreign files under the same rule '
     'directories), root + "/" per call}, sorted listing, two populations, '
     'same oracle (the plain root at construction is every other part).  '
+    'Parts "specials" / "specials-pairs": the entry alphabet is extended, '
+    'in every directory, by p = a FIFO (os.mkfifo) and l = a dangling '
+    'symbolic link (os.symlink to a missing relative target) - entries that '
+    'glob lists but that are neither a regular file nor a directory; EVERY '
+    'prefix-closed tree over the extended alphabet that holds at least one '
+    'of them (in the rule directory or a sub-directory, alone or next to '
+    'regular files / directories / the other special entry): quick = trees '
+    'with <= 3 entries x the 14 single rules and trees with <= 2 entries x '
+    'the 64 core pairs, thorough = trees with <= 3 entries x the 78 core '
+    'rule sets; x nest x trim (at construction; thorough: both at '
+    'construction or both per call), sorted listing, two populations, same '
+    'oracle: a special entry produces NOTHING - no key (handle or sub-map) '
+    'and no factory call with its path.  Part "rule-fifo": EVERY ordinary '
+    'tree with <= 2 (thorough: 3) entries x 30 rule sets whose rule path q '
+    'is a FIFO next to r (alone without / with filter and extras, after and '
+    'before each of the 14 single rules) x nest x trim (at construction), '
+    'sorted listing, two populations: ValueError is due in each.  '
     'Part "retree": EVERY tree with <= 2 (thorough: 3) entries x EVERY '
     'single-entry change of it {a file becomes a directory of the same name '
     'holding the file b.x | a directory with all below it becomes an empty '
@@ -103,7 +132,9 @@ RULE = (
     'trimmed key, filter rejection, directory with extension, empty '
     'directory, missing / non-directory rule path, implicit sub-map, falsy '
     'handle, root spelling, file <-> directory change before a third '
-    'population, ...).')
+    'population, FIFO / dangling link ignored in the rule directory / a '
+    'sub-directory / next to a regular file / alone, rule path that is a '
+    'FIFO, ...).')
 
 ASSUMPTIONS = [
     'out of alphabet: dot-files (glob skips them by convention; the '
@@ -122,9 +153,26 @@ ASSUMPTIONS = [
     'sub-maps are allowed (not demanded) for every directory under a rule '
     'directory, for the rule directory path and its ancestors; demanded only '
     'for directories on the way to an accepted file',
-    'when ValueError is due (a rule path is a plain file) only the exception '
+    'when ValueError is due (a rule path is a plain file or a FIFO) only '
+    'the exception '
     'type and "nothing foreign was added" are checked; whether earlier rules '
     'were already applied is not specified',
+    'entries that are neither a regular file nor a directory: a FIFO and a '
+    'dangling symbolic link, named p and l (no extension, so only a rule '
+    'without extension filter lets them reach the file / directory tests; '
+    'the shortcuts fifo_entry_ignored / dangling_link_ignored count those '
+    'cases only).  The statement speaks of regular files and directories '
+    'only: such an entry must produce nothing.  Out of the alphabet: a '
+    'symbolic link to an existing regular file or directory (the statement '
+    'does not say whether it counts as one), sockets and device nodes, '
+    'special entries with an extension, listing orders other than sorted '
+    'and a third population for trees with special entries.  They are '
+    'created inside the private scratch directory only, never opened, and '
+    'removed with it',
+    'a rule path that is not a directory: a plain file (f, or r/d after a '
+    'tree change) or a FIFO (q); os.path.exists is true for both.  A rule '
+    'path that is a dangling symbolic link (exists() false, lexists() true) '
+    'is not enumerated: the statement does not say whether it is "missing"',
     'nest_on_conflict / trim_extensions have the same value in all '
     'populations of a case; so has the root (spelling and way of giving it)',
     'root spellings: absolute paths only (plain, with one trailing '
@@ -199,6 +247,51 @@ def trees(max_entries):
     return tuple(sorted(found, key=lambda t: (len(t), t)))
 
 
+def _is_special(entry):
+    """The entry is a FIFO or a dangling symbolic link (by its name)."""
+    return (not entry.endswith('/')
+            and entry.rsplit('/', 1)[-1] in SPECIAL_NAMES)
+
+
+def _all_entries_with_specials():
+    out = []
+
+    def rec(prefix, depth):
+        for name in FILES + SPECIAL_NAMES:
+            out.append(prefix + name)
+        for name in LEAF_DIRS:
+            out.append(prefix + name + '/')
+        for name in PARENT_DIRS:
+            out.append(prefix + name + '/')
+            if depth < MAX_DEPTH:
+                rec(prefix + name + '/', depth + 1)
+    rec('', 1)
+    return sorted(out, key=lambda e: (_depth(e), e))
+
+
+@functools.lru_cache(maxsize=None)
+def special_trees(max_entries):
+    """Every prefix-closed entry set with at most ``max_entries`` members
+    over the universe extended by a FIFO ``p`` and a dangling link ``l`` in
+    every directory, that holds at least one of those."""
+    universe = _all_entries_with_specials()
+    found = set()
+
+    def rec(cur, start):
+        found.add(tuple(cur))
+        if len(cur) == max_entries:
+            return
+        have = set(cur)
+        for i in range(start, len(universe)):
+            e = universe[i]
+            p = _parent(e)
+            if p == '' or p in have:
+                rec(cur + [e], i + 1)
+    rec([], 0)
+    return tuple(sorted((t for t in found if any(map(_is_special, t))),
+                        key=lambda t: (len(t), t)))
+
+
 def single_rules():
     out = []
     for d in ('r', 'r/d'):
@@ -223,6 +316,16 @@ def rule_sets(family):
         core = set(core_pairs)
         return [(a, b) for a in singles for b in singles
                 if (a, b) not in core]
+    if family == 'singles':
+        return [(r,) for r in singles]
+    if family == 'core-pairs':
+        return core_pairs
+    if family == 'fifo':
+        # the rule path q is a FIFO: alone (the filter and the extras must
+        # not matter), after and before each of the 14 single rules
+        q = (FIFO_RULE, (), 0)
+        return ([(q,), ((FIFO_RULE, ('.x',), 1),)]
+                + [(r, q) for r in singles] + [(q, r) for r in singles])
     raise HarnessError(f'unknown rule family {family!r}')
 
 
@@ -286,6 +389,8 @@ def _rule_status(tree, rule):
         return 'missing'
     if d == 'f':
         return 'file'
+    if d == FIFO_RULE:
+        return 'fifo'
     raise HarnessError(f'unknown rule directory {d!r}')
 
 
@@ -311,7 +416,9 @@ def model(tree, rules, trim):
     filtered_by_some = set()
     scanned_dirs = set()    # tree notation ('' = r itself, 'd/', ...)
     n_filtered = 0
-    flags = dict(dir_ext=0, empty_dir=0, trimmed=0, outside=0)
+    flags = dict(dir_ext=0, empty_dir=0, trimmed=0, outside=0, fifo=0,
+                 link=0, special_sub=0, special_with_file=0, special_alone=0,
+                 special_filtered=0)
     covered_files = set()
     for rule, st in zip(rules, status):
         if st != 'dir':
@@ -343,6 +450,24 @@ def model(tree, rules, trim):
                 if not any(o != e and o.startswith(e) for o in tree):
                     flags['empty_dir'] = 1
                 continue
+            if _is_special(e):
+                # neither a regular file nor a directory: produces nothing.
+                # Only a rule without extension filter lets it reach the
+                # file / directory tests (the names have no extension)
+                if exts:
+                    flags['special_filtered'] = 1
+                    continue
+                flags['fifo' if name == FIFO_NAME else 'link'] = 1
+                if _depth(e) > 1:
+                    flags['special_sub'] = 1
+                siblings = [o for o in tree if o != e
+                            and _parent(o) == _parent(e)]
+                if not siblings:
+                    flags['special_alone'] = 1
+                if any(not o.endswith('/') and not _is_special(o)
+                       for o in siblings):
+                    flags['special_with_file'] = 1
+                continue
             covered_files.add(e)
             if exts and _ext(name) not in exts:
                 n_filtered += 1
@@ -357,7 +482,8 @@ def model(tree, rules, trim):
             for i in range(1, len(comps)):
                 required.add('/'.join(comps[:i]))
         per_rule.append(acc)
-    if any(not e.endswith('/') and e not in covered_files for e in tree):
+    if any(not e.endswith('/') and not _is_special(e)
+           and e not in covered_files for e in tree):
         flags['outside'] = 1
     implicit_required = {d for d in required if d not in explicit}
     return dict(status=tuple(status), per_rule=per_rule,
@@ -365,7 +491,8 @@ def model(tree, rules, trim):
                 explicit=frozenset(explicit),
                 filtered_by_some=frozenset(filtered_by_some),
                 implicit_required=frozenset(implicit_required),
-                raises=('file' in status), n_filtered=n_filtered,
+                raises=('file' in status or 'fifo' in status),
+                n_filtered=n_filtered,
                 scanned=tuple(sorted(scanned_dirs)), flags=flags,
                 rule_dirs=tuple(r[0] for r, s in zip(rules, status)
                                 if s == 'dir'))
@@ -565,7 +692,18 @@ def _touch(path):
     os.close(os.open(path, os.O_CREAT | os.O_EXCL | os.O_WRONLY, 0o600))
 
 
-def _build(root, tree):
+def _make_special(path, name):
+    """A FIFO or a dangling symbolic link.  Both live inside the private
+    scratch directory only (the link target is a relative name that exists
+    nowhere); nothing ever opens them."""
+    if name == LINK_NAME:
+        os.symlink(LINK_TARGET, path)
+    else:
+        os.mkfifo(path, 0o600)
+
+
+def _build(root, tree, beside=()):
+    """``beside``: special entries next to r (FIFO_RULE)."""
     try:
         os.mkdir(root)
     except FileExistsError:
@@ -573,26 +711,33 @@ def _build(root, tree):
         os.mkdir(root)
     os.mkdir(root + '/r')
     _touch(root + '/f')
+    for name in beside:
+        _make_special(root + '/' + name, FIFO_NAME)
     for e in tree:
         if e.endswith('/'):
             os.mkdir(root + '/r/' + e[:-1])
+        elif _is_special(e):
+            _make_special(root + '/r/' + e, e.rsplit('/', 1)[-1])
         else:
             _touch(root + '/r/' + e)
 
 
-def _destroy(root, tree):
+def _destroy(root, tree, beside=()):
     try:
         for e in reversed(tree):
             if e.endswith('/'):
                 os.rmdir(root + '/r/' + e[:-1])
             else:
+                # (unlink removes a FIFO, and a link rather than its target)
                 os.unlink(root + '/r/' + e)
+        for name in beside:
+            os.unlink(root + '/' + name)
         os.unlink(root + '/f')
         os.rmdir(root + '/r')
         os.rmdir(root)
     except OSError:
         shutil.rmtree(root, ignore_errors=True)
-        if os.path.exists(root):
+        if os.path.lexists(root):
             raise HarnessError(f'cannot clean {root}')
 
 
@@ -709,16 +854,21 @@ def check_population(m, recorder, mods, rules, nest, trim, raised,
     # -- exception behaviour ------------------------------------------------
     if mod['raises']:
         name = type(raised).__name__ if raised is not None else 'nothing'
-        plain = [r[0] for r, st in zip(rules, mod['status']) if st == 'file']
+        plain = [r[0] for r, st in zip(rules, mod['status'])
+                 if st in ('file', 'fifo')]
+        kinds = sorted({st for st in mod['status'] if st in ('file', 'fifo')})
+        what = ' / a '.join('plain file' if k == 'file' else 'FIFO'
+                            for k in kinds)
         if not isinstance(raised, ValueError):
             return Violation(
                 'not_a_directory_valueerror',
                 f'population {pops}: rule path {plain} exists and is a '
-                f'plain file: expected '
+                f'{what}, not a directory: expected '
                 f'ValueError, got {name}'
                 + (f' ({raised})' if raised is not None else ''),
-                raised=name), facts
-        facts['rule_path_is_file'] = 1
+                raised=name, rule_path='+'.join(kinds)), facts
+        for k in kinds:
+            facts['rule_path_is_' + k] = 1
     elif raised is not None:
         return Violation(
             'unexpected_exception',
@@ -894,7 +1044,9 @@ def check_population(m, recorder, mods, rules, nest, trim, raised,
 
     # -- nothing else ------------------------------------------------------
     tree_files = {'r/' + e for t in set(tree_seq) for e in t
-                  if not e.endswith('/')}
+                  if not e.endswith('/') and not _is_special(e)}
+    specials = {'r/' + e for t in set(tree_seq) for e in t
+                if _is_special(e)} | {FIFO_RULE}
     tree_dirs = {'r/' + e[:-1] for t in set(tree_seq) for e in t
                  if e.endswith('/')} | {'r'}
     allowed = mod['allowed']
@@ -910,6 +1062,7 @@ def check_population(m, recorder, mods, rules, nest, trim, raised,
                 bad = 'not_a_map'
             elif key not in allowed:
                 bad = ('map_for_file' if key in tree_files or key == 'f'
+                       else 'map_for_special_entry' if key in specials
                        else 'map_outside_rule_dir' if key in tree_dirs
                        else 'map_for_nothing')
         else:
@@ -926,6 +1079,7 @@ def check_population(m, recorder, mods, rules, nest, trim, raised,
                     bad = ('handle_wrong_key' if accepted_somewhere
                            else 'handle_for_unaccepted_file'
                            if f in tree_files or f == 'f'
+                           else 'handle_for_special_entry' if f in specials
                            else 'handle_for_directory' if f in tree_dirs
                            else 'handle_for_nothing')
         if bad:
@@ -938,6 +1092,18 @@ def check_population(m, recorder, mods, rules, nest, trim, raised,
                 f'population {pops}: {what} corresponds to no accepted file '
                 f'or directory under a rule directory ({bad})',
                 **_features(mod, rules, trim=trim, what=bad)), facts
+    # -- a FIFO / dangling link is no regular file: no factory call either --
+    for h in recorder.created:
+        f = recorder.file_of(h)
+        if f in specials:
+            return Violation(
+                'nothing_else',
+                f'population {pops}: the factory of rule {h.rule} was called '
+                f'in population {h.pop} with the path of {f!r}, which is '
+                f'neither a regular file nor a directory '
+                f'(factory_call_for_special_entry)',
+                **_features(mod, rules, trim=trim,
+                            what='factory_call_for_special_entry')), facts
     if not groups and not mod['raises']:
         facts['nothing_accepted'] = 1
     return None, facts
@@ -1013,7 +1179,8 @@ def execute(case):
     main_v = back_v = None
     calls = 0
     on_disk = tree
-    _build(root, tree)
+    beside = (FIFO_RULE,) if any(r[0] == FIFO_RULE for r in rules) else ()
+    _build(root, tree, beside)
     try:
         ctor = dict(nest_on_conflict=bool(nest) if nest_how == 'ctor'
                     else not nest,
@@ -1042,9 +1209,9 @@ def execute(case):
             now = tree_seq[pops - 1]
             if now != on_disk:
                 # the tree changes on disk between two populations
-                _destroy(root, on_disk)
+                _destroy(root, on_disk, beside)
                 on_disk = now
-                _build(root, now)
+                _build(root, now, beside)
                 plan, _ = listing_plan(now, rules, 0, root)
             recorder.pop = pops
             raised = None
@@ -1095,6 +1262,20 @@ def execute(case):
                     hits['empty_dir'] = 1
                 if fl['outside']:
                     hits['outside_rule_dir_ignored'] = 1
+                # (counted for rules without extension filter only: there
+                # the entry reaches the file / directory tests)
+                if fl['fifo']:
+                    hits['fifo_entry_ignored'] = 1
+                if fl['link']:
+                    hits['dangling_link_ignored'] = 1
+                if fl['special_sub']:
+                    hits['special_entry_in_subdirectory'] = 1
+                if fl['special_with_file']:
+                    hits['special_entry_next_to_regular_file'] = 1
+                if fl['special_alone']:
+                    hits['special_entry_alone_in_directory'] = 1
+                if fl['special_filtered']:
+                    hits['special_entry_rejected_by_filter'] = 1
                 if 'r/d' in mod['rule_dirs']:
                     hits['nested_rule_dir'] = 1
                 if permuted:
@@ -1113,7 +1294,7 @@ def execute(case):
                 hits['backlink_defect_observed'] = 1
     finally:
         os.scandir = _REAL_SCANDIR
-        _destroy(root, on_disk)
+        _destroy(root, on_disk, beside)
     return main_v, back_v, hits, calls
 
 
@@ -1170,13 +1351,19 @@ def parts(tier):
         return {'mirror': ('mirror', 3, 'core', 'same'),
                 'backlinks': ('backlinks', 3, 'core', 'ctor'),
                 'roots': ('full', 2, 'core', 'ctor', 'roots'),
-                'retree': ('full', 2, 'core', 'ctor', 'retree')}
+                'retree': ('full', 2, 'core', 'ctor', 'retree'),
+                'specials': ('full', 3, 'singles', 'ctor', 'specials'),
+                'specials-pairs': ('full', 2, 'core-pairs', 'ctor',
+                                   'specials'),
+                'rule-fifo': ('full', 2, 'fifo', 'ctor', 'sorted')}
     return {'mirror': ('mirror', 4, 'core', 'all'),
             'mirror-pairs': ('mirror', 3, 'other-pairs', 'all'),
             'backlinks': ('backlinks', 4, 'core', 'ctor'),
             'backlinks-pairs': ('backlinks', 3, 'other-pairs', 'ctor'),
             'roots': ('full', 3, 'core', 'same', 'roots'),
-            'retree': ('full', 3, 'core', 'same', 'retree')}
+            'retree': ('full', 3, 'core', 'same', 'retree'),
+            'specials': ('full', 3, 'core', 'same', 'specials'),
+            'rule-fifo': ('full', 3, 'fifo', 'ctor', 'sorted')}
 
 
 def _spec(spec):
@@ -1186,7 +1373,9 @@ def _spec(spec):
 def part_params(spec):
     kind, n, family, how, extra = _spec(spec)
     out = dict(checks=kind, max_entries=n, rule_family=family,
-               trees=len(trees(n)), rule_sets=len(rule_sets(family)),
+               trees=len(special_trees(n) if extra == 'specials'
+                         else trees(n)),
+               rule_sets=len(rule_sets(family)),
                options_given=how, option_sets=len(option_sets(how)),
                listing_orders=('sorted only' if kind == 'backlinks' or extra
                                else
@@ -1199,6 +1388,11 @@ def part_params(spec):
     if extra == 'retree':
         ms = [len(morphs(t)) for t in trees(n)]
         out['tree_changes'] = sum(ms)
+    if extra == 'specials':
+        out['special_entries'] = {FIFO_NAME: 'FIFO (os.mkfifo)',
+                                  LINK_NAME: 'dangling symbolic link'}
+    if family == 'fifo':
+        out['rule_path_' + FIFO_RULE] = 'a FIFO next to r'
     return out
 
 
@@ -1213,6 +1407,12 @@ def cases_for(spec):
         osets = option_sets(how, ('plain',))
         return [(tree, rules, opts, 0, tree3) for tree in trees(n)
                 for tree3 in morphs(tree)
+                for rules in rsets for opts in osets]
+    if extra in ('specials', 'sorted'):
+        # sorted listing, plain root at construction, two populations
+        osets = option_sets(how)
+        family_trees = special_trees(n) if extra == 'specials' else trees(n)
+        return [(tree, rules, opts, 0) for tree in family_trees
                 for rules in rsets for opts in osets]
     osets = option_sets(how)
     out = []
@@ -1263,6 +1463,34 @@ def calibrate():
     finally:
         os.scandir = _REAL_SCANDIR
         _destroy(root, tree)
+    # the special entries must be what the alphabet says they are, and glob
+    # must list them (otherwise the parts "specials*" ask nothing)
+    tree = ('a.x', LINK_NAME, FIFO_NAME, 'd/', 'd/' + LINK_NAME,
+            'd/' + FIFO_NAME)
+    _build(root, tree, (FIFO_RULE,))
+    try:
+        top = os.path.join(root, 'r')
+        with OrderedScandir({}):
+            got = sorted(os.path.relpath(p, top) for p in
+                         glob.iglob(os.path.join(top, '**'), recursive=True))
+        if got != sorted(['.'] + [e.rstrip('/') for e in tree]):
+            raise HarnessError(f'glob does not list the special entries: '
+                               f'{got}')
+        for e in tree[1:3] + tree[4:]:
+            path = os.path.join(top, e)
+            if (not os.path.lexists(path) or os.path.isfile(path)
+                    or os.path.isdir(path)):
+                raise HarnessError(f'{e!r} is not a special entry on disk')
+            if os.path.exists(path) != (e.rsplit('/', 1)[-1] == FIFO_NAME):
+                raise HarnessError(f'{e!r}: only the FIFO may exist for '
+                                   f'os.path.exists')
+        path = os.path.join(root, FIFO_RULE)
+        if (not os.path.exists(path) or os.path.isfile(path)
+                or os.path.isdir(path)):
+            raise HarnessError('the rule path q is not a FIFO')
+    finally:
+        os.scandir = _REAL_SCANDIR
+        _destroy(root, tree, (FIFO_RULE,))
     # determinism self-check: one rich case, twice, same outcome
     probe = (('a.x', 'a.y', 'd/', 'd/b.x'),
              (('r', (), 0), ('r/d', ('.x',), 1)), (1, 1, 'ctor', 'call'), 3)
@@ -1270,7 +1498,9 @@ def calibrate():
               (('r', (), 0), ('r/d', ('.x',), 1)),
               (1, 0, 'ctor', 'ctor', 'call-slash'), 0,
               ('a.x', 'c/', 'd/', 'c/b.x', 'd/b.x'))
-    for case in (probe, probe3):
+    probe_s = (('a.x', 'd/', FIFO_NAME, 'd/' + LINK_NAME),
+               (('r', (), 0), (FIFO_RULE, (), 0)), (1, 1, 'ctor', 'ctor'), 0)
+    for case in (probe, probe3, probe_s):
         outs = []
         for _ in range(2):
             mv, bv, hits, calls = execute(case)
@@ -1295,11 +1525,17 @@ REQUIRED = dict(nested_conflict_layered=1, replace_without_nest=1,
                 third_population_file_became_directory=1,
                 file_became_directory_under_layers=1,
                 third_population_directory_became_file=1,
-                third_population_same_key=1, key_of_vanished_file=1)
+                third_population_same_key=1, key_of_vanished_file=1,
+                fifo_entry_ignored=1, dangling_link_ignored=1,
+                special_entry_in_subdirectory=1,
+                special_entry_next_to_regular_file=1,
+                special_entry_alone_in_directory=1,
+                special_entry_rejected_by_filter=1)
 # shortcuts that can only be counted on cases that pass; when the clause
 # itself is violated on every such case the violation is the evidence
 REQUIRED_UNLESS_VIOLATED = dict(
     rule_path_is_file='not_a_directory_valueerror',
+    rule_path_is_fifo='not_a_directory_valueerror',
     rule_dir_became_file='not_a_directory_valueerror',
     implicit_submap_backlinked='backlinks')
 
